@@ -284,6 +284,8 @@ func (r *symRun) step(b, prev *ssa.BasicBlock, from int, st *symState, visited m
 			st.val[n] = fmt.Sprintf("(iface %s)", r.term(st, n.X))
 		case *ssa.ChangeInterface:
 			st.val[n] = r.term(st, n.X)
+		case *ssa.MakeSlice:
+			st.val[n] = fmt.Sprintf("(make %s %s)", r.term(st, n.Len), r.term(st, n.Cap))
 		case *ssa.Slice:
 			lo, hi := "", ""
 			if n.Low != nil {
@@ -338,6 +340,22 @@ func (r *symRun) step(b, prev *ssa.BasicBlock, from int, st *symState, visited m
 		case *ssa.Call:
 			callee := n.Common().StaticCallee()
 			if callee == nil {
+				if bi, ok := n.Common().Value.(*ssa.Builtin); ok {
+					var as []string
+					for _, a := range n.Common().Args {
+						as = append(as, r.term(st, a))
+					}
+					switch bi.Name() {
+					case "len", "cap", "min", "max":
+						st.val[n] = "(" + bi.Name() + " " + strings.Join(as, " ") + ")"
+						continue
+					case "copy":
+						t := "(copy " + strings.Join(as, " ") + ")"
+						st.val[n] = t
+						st.calls = append(st.calls, t)
+						continue
+					}
+				}
 				out.why = "dynamic call " + n.String()
 				return
 			}
